@@ -119,3 +119,8 @@
   (forall ((Hn (Array Int Str)) (Hs (Array Int Str)) (Ho (Array Int Node)) (Hso (Array Int Node)) (Ht (Array Int Node)) (d Seq_Int) (n Int) (r Int) (v Node) (a Int))
     (! (=> (and (allBelow d n a) (>= r a)) (= (viewL Hn Hs Ho Hso (store Ht r v) d n) (viewL Hn Hs Ho Hso Ht d n)))
        :pattern ((viewL Hn Hs Ho Hso (store Ht r v) d n) (allBelow d n a)))))
+(lemma viewL-empty
+  (forall ((Hn (Array Int Str)) (Hs (Array Int Str)) (Ho (Array Int Node)) (Hso (Array Int Node)) (Ht (Array Int Node)) (d Seq_Int))
+    (! (= (viewL Hn Hs Ho Hso Ht d 0) Seq_Sub.empty) :pattern ((viewL Hn Hs Ho Hso Ht d 0)))))
+(lemma allBelow-empty (forall ((d Seq_Int) (a Int)) (! (allBelow d 0 a) :pattern ((allBelow d 0 a)))))
+(lemma distinctL-empty (forall ((d Seq_Int)) (! (distinctL d 0) :pattern ((distinctL d 0)))))
